@@ -151,9 +151,9 @@ class Sched:
                     while self.current is not None or any(st == "new" for st in self.state):
                         self.cv.wait(timeout=5)
                         waited += 5
-                        if waited >= 60:
+                        if waited >= 20:
                             break
-                    if waited >= 60 and (self.current is not None or any(st == "new" for st in self.state)):
+                    if waited >= 20 and (self.current is not None or any(st == "new" for st in self.state)):
                         # a worker is blocked outside the scheduler's control (workers are daemons: abandoned)
                         outcome = "stuck"
                         break
